@@ -8,7 +8,7 @@ EXPLANATION = ("S1-S12 every request builder is abstractly evaluated (path-sensi
                "on every path that issues the operation, with the RFC 4511 shape transcribed in this module - class, tag number, element "
                "order, optionality condition and *which parameter feeds which slot*; S13 the LDAPMessage envelope SEQUENCE{INTEGER id, op, "
                "[0]{control*} iff controls are Some}; S14 the control SEQUENCE{OCTET ctype, BOOLEAN TRUE only if critical, OCTET value only "
-               "if present}; S15 each method passes the right LdapOp variant; enumerations Scope/DerefAliases equal RFC 4511; M1 the issue "
+               "if present} - S13 / S14 by interpreting the encoder once per member of the finite partition controls Some / None x crit true / false x val Some / None (fields fixed to variant / literal knowledge) and comparing the emitted component list of each member; S15 each method passes the right LdapOp variant; enumerations Scope/DerefAliases equal RFC 4511; M1 the issue "
                "point takes controls and timeout out of the handle (Option::take), the streaming search moves all three modifiers to the "
                "stream's handle, the search start takes the options; M2/M3 on every path of every public operation method on which the "
                "operation is issued - and on every path on which it is rejected locally - all three modifiers have been consumed; M5 the "
